@@ -32,6 +32,7 @@ func init() {
 		c09PageCounter(c)
 		c09Locking(c)
 		c09EmptyPosition(c)
+		c09ScanLimitToken(c)
 		fieldWriters(c, "who-writes", "core", "RunningEventFilter", []string{"inner", "next"},
 			map[string]string{"insert": "forward step", "onReorg": "inverse step", "ensureInit$1": "lazy initialisation", "ensureInit": "lazy initialisation", "UnmarshalBinary": "decoding a snapshot",
 				"NewRunningEventFilterHot": "constructor", "NewRunningEventFilterLazy": "constructor"})
@@ -993,5 +994,55 @@ func c09EmptyPosition(c *Ctx) {
 		}
 	} else {
 		c.und("empty-position", "EventMatcher.MatchesEventKeys", "", "anchor not found")
+	}
+}
+
+// c09ScanLimitToken: when the scan limit stops a page, the continuation token names the next candidate block whenever that
+// candidate still lies inside the range — including the range's last block (≤, not <): otherwise the events of the last
+// block are silently dropped when it happens to be the (limit+1)-th candidate.
+func c09ScanLimitToken(c *Ctx) {
+	p := c.P
+	f := p.Func("blockchain", "EventFilter", "canonicalEvents")
+	if f == nil {
+		c.und("scan-limit-token", "EventFilter.canonicalEvents", "", "anchor not found")
+		return
+	}
+	n := 0
+	for _, ret := range returnsOf(f) {
+		if len(ret.Results) != 3 || !isNilConst(ret.Results[2]) {
+			continue
+		}
+		// the token literal with processedEvents = 0 and fromBlock = next candidate
+		ld, ok := ret.Results[1].(*ssa.UnOp)
+		if !ok {
+			continue
+		}
+		al, ok := ld.X.(*ssa.Alloc)
+		if !ok {
+			continue
+		}
+		zeroProcessed := false
+		for _, r := range *al.Referrers() {
+			if fa, isFa := r.(*ssa.FieldAddr); isFa && fieldName(fa.X.Type(), fa.Field) == "processedEvents" {
+				for _, r2 := range *fa.Referrers() {
+					if st, isSt := r2.(*ssa.Store); isSt {
+						if k, isK := constUint(st.Val); isK && k == 0 {
+							zeroProcessed = true
+						}
+					}
+				}
+			}
+		}
+		if !zeroProcessed {
+			continue
+		}
+		n++
+		d := p.mustHoldAt(ret.Ret)
+		okLimit, m1 := everyDisjunctHas(d, []string{"scannedCount", " > ", "maxScanned"}, []string{"^!", "scannedCount", " <= ", "maxScanned"})
+		okRange, m2 := everyDisjunctHas(d, []string{" <= ", "toBlock)"}, []string{"^!", " > ", "toBlock)"}, []string{"toBlock", " >= "})
+		c.check(okLimit && okRange, "scan-limit-token", "canonicalEvents: scan-limit continuation", p.Pos(posOf(ret.Ret, f)), "issued when the limit was exceeded and the next candidate ≤ the range end", "the scan-limit continuation token is not issued for every next candidate inside the range (limit: "+fmt.Sprint(okLimit)+" "+m1+"; candidate ≤ end: "+fmt.Sprint(okRange)+" "+m2+"): when the next candidate is the last block of the range its events are dropped")
+	}
+	if n == 0 {
+		c.und("scan-limit-token", "canonicalEvents", p.Pos(fnPos(f)), "scan-limit token return not found")
 	}
 }
